@@ -1,5 +1,6 @@
 import ZvbiModel.Idl.Lemmas
-import ZvbiModel.Pfc.Lemmas3
+import ZvbiModel.Pfc.Lemmas6
+import ZvbiModel.Pfc.Witness
 /-!
 # C15 - IDL and PFC demultiplexers deliver the sent data in order and flag loss
 
@@ -117,6 +118,46 @@ theorem idl_damage_is_remembered (s : St) (p : Spec.Pkt) (hd : p.Damaged)
   refine ⟨rfl, rfl, ?_⟩
   simp
 
+/-- a concrete transmitted packet: channel 3, address 0x21 (two nibbles), explicit CI and DL,
+    user data with a run of nine 0x00 (so a dummy byte is inserted) -/
+def exPkt (ci : Nat) : Spec.Pkt :=
+  Spec.mkPacket 3 12 2 [1, 2] 0 ci [0, 0, 0, 0, 0, 0, 0, 0, 0, 7] 0xAA (List.replicate 21 0x55)
+
+example : (exPkt 0).payload = [0, 0, 0, 0, 0, 0, 0, 0xAA, 0, 0, 7] := by decide
+example : (exPkt 5).Valid := valid_of_validB _ (by decide +kernel)
+/-- non-vacuity of `idl_delivers_sent`: two consecutive packets around a foreign one -/
+example : (run { channel := 3, address := 0x21, ci := none, ri := none, flags := 0 }
+    [(exPkt 5).bytes, List.replicate 42 0, (exPkt 6).bytes]).map (fun cb => (cb.flags, cb.bytes)) =
+    [(0, [0, 0, 0, 0, 0, 0, 0, 0, 0, 7]), (0, [0, 0, 0, 0, 0, 0, 0, 0, 0, 7])] := by decide +kernel
+/-- ... and a jump of the continuity index is flagged on the next delivery only -/
+example : (run { channel := 3, address := 0x21, ci := none, ri := none, flags := 0 }
+    [(exPkt 5).bytes, (exPkt 7).bytes, (exPkt 8).bytes]).map (·.flags) = [0, 1, 0] := by decide +kernel
+example : Spec.NotForUs 3 0x21 (List.replicate 42 0) := by
+  have h : unham8 ((List.replicate 42 0).getD 1 0) = some 1 := by decide
+  unfold Spec.NotForUs; rw [h]
+  cases unham8 ((List.replicate 42 0).getD 0 0) with
+  | none => trivial
+  | some c => exact Or.inl (by decide)
+
+/-- **Finding C15-F17 (witness).**  `vbi_idl_a_demux_new` does not initialise `dx->flags`: if the
+    allocator hands out memory filled with 0xBE (as ASan's does), the first callback of an intact
+    packet carries flags 0xBEBEBEBE instead of 0.  (Vacuous once the source assigns `dx->flags`:
+    the translator then sets `Gen.idlFlagsInitialised`.)  Replay: corpus/C15/f17-idl-flags-uninit.ops -/
+theorem idl_flags_uninitialised_counterexample : idlFlagsInitialised = false →
+    ((new 1 0 190).bind (fun s => (feed s Zvbi.C15Witness.f17Packet).2.2)).map (·.flags) = some 0xBEBEBEBE := by
+  decide +kernel
+
+/-- With an initialised flag word (`fill = 0`, or a repaired source) a new demultiplexer starts
+    with no flag pending, so `idl_delivers_sent` yields exactly DATA_LOST / DEPENDENT. -/
+theorem idl_new_flags_zero (channel address : Nat) (s : St) (h : new channel address 0 = some s) :
+    s.flags = 0 := by
+  unfold new at h
+  split at h
+  · cases h
+  · split at h
+    · cases h
+    · cases h; simp
+
 end Idl
 
 /-! ## Page Format Clear -/
@@ -187,6 +228,146 @@ theorem pfc_delivers_blocks_rows (items : List (Spec.Blk × Nat)) (hitems : ∀ 
       cases ha : s'.appId with
       | none => rw [ha] at this; cases this
       | some a => rw [ha] at this; cases this
+
+/-- **Blocks delivered as sent (whole transmissions).**  A freshly created demultiplexer for
+    page `pgno` (0x100..0x8FF), stream `stream`, is fed consecutive pages of that stream: each a page
+    header (continuity index counting up modulo 16 from any `ci`, packet count = number of rows,
+    any other header content) followed by its rows `X/1 .. X/n`, `n <= 25`.  If the rows' payloads,
+    concatenated, are the flat stream of a sendable block sequence (blocks of 0..2047 bytes, any
+    filler counts, so any alignment relative to packets and pages) and every block pointer is
+    usable, then the callbacks are exactly the non-empty blocks, in order, with their application
+    ids and bytes.  Size-0 blocks produce no callback (stated interpretation). -/
+theorem pfc_delivers_blocks (pgno stream : Nat) (hpg1 : 0x100 ≤ pgno) (hpg2 : pgno < 0x900) (hst : stream < 16)
+    (items : List (Spec.Blk × Nat)) (hitems : ∀ it ∈ items, it.1.Ok) (lead : Nat)
+    (ci : Nat) (hci : ci < 16) (pages : List Spec.Page) (hn : ∀ pg ∈ pages, pg.rows.length ≤ 25)
+    (hstream : ((Spec.allRows pages).map (·.2)).flatten = Spec.flat lead items)
+    (hadm : Spec.AdmissibleAll .idle (Spec.allRows pages)) :
+    ∃ s' bl, feedAll (new pgno stream) (Spec.pagesPkts pgno stream ci pages) = .ok (s', bl) ∧
+      bl.map toSpec = Spec.delivered items :=
+  feed_delivers pgno stream hpg1 hpg2 hst items hitems lead ci hci pages hn hstream hadm
+
+/-- The same from any state between blocks whose page bookkeeping is consistent with the first
+    header (continuity index as expected and previous page complete, or - after a reset - any
+    index): delivery (re)starts correctly.  Together with `pfc_loss_discards_one_block` this is
+    "after which delivery resumes correctly". -/
+theorem pfc_delivers_blocks_from (pgno stream : Nat) (hpg1 : 0x100 ≤ pgno) (hpg2 : pgno < 0x900) (hst : stream < 16)
+    (items : List (Spec.Blk × Nat)) (hitems : ∀ it ∈ items, it.1.Ok) (lead : Nat)
+    (ci : Nat) (hci : ci < 16) (pages : List Spec.Page) (hn : ∀ pg ∈ pages, pg.rows.length ≤ 25)
+    (hstream : ((Spec.allRows pages).map (·.2)).flatten = Spec.flat lead items)
+    (hadm : Spec.AdmissibleAll .idle (Spec.allRows pages))
+    (s : St) (hidle : s.left = 0) (hinv : Inv s) (hpgs : s.pgno = pgno) (hss : s.stream = stream)
+    (hready : (s.ci = ci ∧ (s.nPackets = 0 ∨ s.packet = s.nPackets + 1)) ∨ s.ci ≠ ci) :
+    ∃ s' bl, feedAll s (Spec.pagesPkts pgno stream ci pages) = .ok (s', bl) ∧
+      bl.map toSpec = Spec.delivered items := by
+  have hph := phase_idle s hidle
+  have hR := pfc_grammar_reads_blocks items hitems lead
+  have hready' : (s.ci = ci ∧ (s.nPackets = 0 ∨ s.packet = s.nPackets + 1)) ∨ (s.ci ≠ ci ∧ s.left = 0) := by
+    rcases hready with h | h
+    · exact Or.inl h
+    · exact Or.inr ⟨h, hidle⟩
+  obtain ⟨s', bl, h1, _, _, h4⟩ := feed_pages pgno stream hpg1 hpg2 hst pages hn ci s hci
+    (by intro h; omega) hinv hpgs hss hready' (by rw [hph]; exact hadm) (by rw [hph, hstream, hR])
+  rw [hph, hstream, hR] at h4
+  exact ⟨s', bl, h1, (congrArg Spec.Res.out h4).symm⟩
+
+/-- **Foreign packets are ignored.**  A packet that is not a page header (packet number != 0)
+    and belongs to another magazine changes nothing and delivers nothing; so does any such packet
+    while no page of ours is open (`n_packets = 0`: after a header of another page or stream), and
+    stuffing rows 26..31. -/
+theorem pfc_foreign_pages_ignored (s : St) (buf : List Nat) (hlen : buf.length = 42) (m y : Nat)
+    (haddr : Spec.addrOf buf = some (m, y)) (hy : y ≠ 0)
+    (h : (m ^^^ s.pgno) &&& 0xF00 ≠ 0 ∨ s.nPackets = 0 ∨ y > 25) :
+    feed s buf = .ok ⟨s, true, []⟩ := by
+  rw [feed_nonheader s buf hlen m y haddr hy]
+  by_cases h1 : (m ^^^ s.pgno) &&& 0xF00 ≠ 0
+  · rw [if_pos h1]
+  · rw [if_neg h1]
+    by_cases h2 : s.nPackets = 0
+    · rw [if_pos h2]
+    · rw [if_neg h2]
+      have h3 : y > 25 := by rcases h with h | h | h <;> first | exact absurd h h1 | exact absurd h h2 | exact h
+      rw [if_pos h3]
+
+/-- A page header of another page (any magazine) delivers nothing; it either changes nothing or
+    closes our page, after which the rows that follow are ignored (previous theorem). -/
+theorem pfc_foreign_header_delivers_nothing (s : St) (buf : List Nat) (hlen : buf.length = 42) (m pp : Nat)
+    (haddr : Spec.addrOf buf = some (m, 0)) (hpage : Spec.pageByteOf buf = some pp) (hne : m ||| pp ≠ s.pgno) :
+    ∃ o, feed s buf = .ok o ∧ o.blocks = [] ∧ o.ret = true ∧ (o.st = s ∨ o.st.nPackets = 0) :=
+  feed_foreign_header s buf hlen m pp haddr hpage hne
+
+/-- **Loss discards the block in progress, nothing else.**  (a) A row of our open page that is
+    not the expected one (a row was lost), and (b) a page header of ours whose continuity index is
+    not the expected one (a page was lost), deliver nothing and put the demultiplexer into the
+    state of a new one (the partly assembled block is dropped; (b) then records the new page).
+    `pfc_delivers_blocks_from` applies to that state. -/
+theorem pfc_loss_discards_one_block (s : St) :
+    (∀ (buf : List Nat) (m y : Nat), buf.length = 42 → Spec.addrOf buf = some (m, y) → y ≠ 0 →
+        (m ^^^ s.pgno) &&& 0xF00 = 0 → s.nPackets ≠ 0 → y ≤ 25 → (y ≠ s.packet ∨ y > s.nPackets) →
+        feed s buf = .ok ⟨reset s, true, []⟩) ∧
+    (∀ (pgno stream ci n : Nat) (tail : List Nat), 0x100 ≤ pgno → pgno < 0x900 → stream < 16 → ci < 16 → n < 32 →
+        s.pgno = pgno → s.stream = stream → ci ≠ s.ci →
+        feed s (Spec.headerPkt pgno stream ci n tail) =
+          .ok ⟨{ reset s with ci := (ci + 1) &&& 15, packet := 1, nPackets := n }, true, []⟩) ∧
+    reset s = { new s.pgno s.stream with blockSize := s.blockSize } ∧ (reset s).left = 0 ∧ Inv (reset s) := by
+  refine ⟨?_, ?_, rfl, rfl, inv_reset s⟩
+  · intro buf m y hlen haddr hy hm hn h25 hgap
+    rw [feed_nonheader s buf hlen m y haddr hy]
+    have h1 : ¬ ((m ^^^ s.pgno) &&& 0xF00 ≠ 0) := by simp [hm]
+    have h3 : ¬ y > 25 := by omega
+    rw [if_neg h1, if_neg hn, if_neg h3, if_pos hgap]
+  · intro pgno stream ci n tail h1 h2 h3 h4 h5 h6 h7 h8
+    rw [feed_header s pgno stream ci n tail h1 h2 h3 h4 h5 h6 h7, if_pos h8]
+
+/-- **Finding C15-F18 (witness).**  The structure header (and the page sub-code) is read as
+    `vbi_unham16p (lo) + vbi_unham16p (hi) * 256` and only the sign of the sum is tested: an
+    uncorrectable Hamming error in the low pair goes unnoticed when the high pair is > 0.  Sent: one
+    block (app 5, 64 bytes) whose first structure header byte has two bits flipped.  Delivered: a
+    block (app 31, 63 bytes) that was never sent.  Replay: corpus/C15/f18a-pfc-structure-header-hamming.ops -/
+theorem pfc_header_hamming_counterexample : pfcPairSignChecked = false →
+    (blocksOf (feedAll (new 0x1df 1) Zvbi.C15Witness.f18Packets)).map (fun b => (b.1, b.2.1)) = [(31, 63)] := by
+  decide +kernel
+
+/-- **Finding C15-F19 (witness).**  The last row of a page is lost; the next page header has the
+    expected continuity index and nothing checks that all announced rows arrived: block (app 5,
+    bytes 0..99) is delivered with wrong content.  Replay: corpus/C15/f19-pfc-tail-drop.ops -/
+theorem pfc_tail_loss_counterexample : pfcPageEndChecked = false →
+    ∃ b ∈ blocksOf (feedAll (new 0x1df 1) Zvbi.C15Witness.f19Packets),
+      b.1 = 5 ∧ b.2.1 = 100 ∧ b.2.2 ≠ List.range 100 := by
+  decide +kernel
+
+/-- **Finding C15-F20 (witness).**  Parallel transmission: a page header of magazine 2 between rows 1
+    and 2 of our page closes our page, row 2 is ignored without a reset and block (app 5, bytes
+    0..59) is delivered with wrong content.  Replay: corpus/C15/f20-pfc-parallel-header.ops -/
+theorem pfc_parallel_header_counterexample : pfcForeignMagHeaderIgnored = false →
+    ∃ b ∈ blocksOf (feedAll (new 0x1df 1) Zvbi.C15Witness.f20Packets),
+      b.1 = 5 ∧ b.2.1 = 60 ∧ b.2.2 ≠ List.range 60 := by
+  decide +kernel
+
+/-! ### non-vacuity: a transmission produced by `Spec.encode` -/
+
+/-- three blocks (one empty), fillers, 2 rows -/
+def exItems : List Spec.Item := [⟨5, [1, 2, 3], 2⟩, ⟨6, [], 0⟩, ⟨7, List.range 40, 1⟩]
+def exPages : List Spec.Page := [⟨List.replicate 34 0x20, Spec.encode 0 exItems⟩]
+
+example : (Spec.encode 0 exItems).length = 2 := by decide +kernel
+example : (blocksOf (feedAll (new 0x1df 1) (Spec.pagesPkts 0x1df 1 9 exPages))).map (fun b => (b.1, b.2.2)) =
+    [(5, [1, 2, 3]), (7, List.range 40)] := by decide +kernel
+example : (Spec.run .idle [] ((Spec.allRows exPages).map (·.2)).flatten).out = [(5, [1, 2, 3]), (7, List.range 40)] := by
+  decide +kernel
+example : Spec.run .idle [] (Spec.flat 2 [(⟨5, [1, 2, 3]⟩, 4), (⟨6, []⟩, 0)]) = ⟨.idle, [(5, [1, 2, 3])], true⟩ := by
+  decide +kernel
+
+/-- **Open (not proved): the executable sender always meets the hypotheses of
+    `pfc_delivers_blocks`.**  For every sendable item list, the packets of `Spec.encode` carry the
+    flat stream of the same blocks (with the gaps enlarged by the alignment fillers) and all their
+    block pointers are usable.  Checked on instances above, and on every run by the check script
+    (Lean sender = Python sender; the real code fed with its output delivers the blocks). -/
+def pfc_sender_admissible_full : Prop :=
+  ∀ (lead : Nat) (items : List Spec.Item), (∀ it ∈ items, it.app < 32 ∧ it.data.length ≤ 2047) →
+    Spec.AdmissibleAll .idle (Spec.encode lead items) ∧
+    ∃ lead' gaps, gaps.length = items.length ∧
+      ((Spec.encode lead items).map (·.2)).flatten =
+        Spec.flat lead' ((items.map (fun it => (⟨it.app, it.data⟩ : Spec.Blk))).zip gaps)
 
 end Pfc
 
